@@ -79,7 +79,7 @@ func main() {
 		}
 		os.Exit(orch.SelfTest(all, ids, opt, n))
 	case "warm":
-		env, err := orch.BuildWorlds(opt.VerifDir, opt.RepoDir, true, false, nil)
+		env, err := orch.BuildWorlds(opt.VerifDir, opt.RepoDir, true, true, nil)
 		env.Cleanup()
 		if err != nil {
 			fmt.Println("warm:", err)
@@ -107,7 +107,7 @@ func main() {
 				os.Exit(2)
 			}
 		}
-		env, err := orch.BuildWorlds(opt.VerifDir, opt.RepoDir, sc.World.Race, false, nil)
+		env, err := orch.BuildWorlds(opt.VerifDir, opt.RepoDir, sc.World.Race, sc.World.Fine, nil)
 		defer env.Cleanup()
 		if err != nil {
 			fmt.Println(err)
